@@ -1,5 +1,6 @@
 (* C14 - diagnostics point at the offending construct in the user's own file.
    Property theorems only; proofs live in RegionProofs.v. *)
+From HclV Require SpanParserSpec SpanParserProofs.
 From HclV Require Import Base Yo Region RegionSpec RegionProofs RegionMultiSpec RegionMultiProofs.
 From HclV Require LexLocSpec LexLocProofs.
 Open Scope list_scope.
@@ -119,3 +120,53 @@ Print Assumptions C14_lexical_diagnostic_located.
 Theorem C14_compiled_preamble_lexes : LexLocSpec.stmt_gen_preamble_ok.
 Proof. exact LexLocProofs.gen_preamble_ok_holds. Qed.
 Print Assumptions C14_compiled_preamble_lexes.
+
+(* ---- the spans the parser attaches to the syntax tree (SpanParser*.v): every located diagnostic
+   underlines the span of an AST node / declaration; the spanned model parser records them as the
+   grammar actions of parser.lalrpop do (compared with the real parser on every run) ------------- *)
+(* forgetting the spans gives the parser all other theorems are about *)
+Theorem C14_spanned_parser_is_the_parser :
+  SpanParserSpec.stmt_erase_parse_sp /\ SpanParserSpec.stmt_erase_parse_text_sp.
+Proof.
+  split; [exact SpanParserProofs.erase_parse_sp_holds | exact SpanParserProofs.erase_parse_text_sp_holds].
+Qed.
+Print Assumptions C14_spanned_parser_is_the_parser.
+(* every recorded span starts where a token starts and ends where a token ends (no blanks or
+   comments at its edges), is non-empty and lies inside the text; tokens are ordered *)
+Theorem C14_spans_are_token_aligned :
+  SpanParserSpec.stmt_spans_token_aligned /\ SpanParserSpec.stmt_lex_tokens_ordered /\
+  SpanParserSpec.stmt_spans_in_text.
+Proof.
+  split; [exact SpanParserProofs.spans_token_aligned_holds |].
+  split; [exact SpanParserProofs.lex_tokens_ordered_holds | exact SpanParserProofs.spans_in_text_holds].
+Qed.
+Print Assumptions C14_spans_are_token_aligned.
+(* a child's span lies inside its parent's, every span of a statement inside that statement's
+   stretch of tokens, and the statements' spans follow one another in text order *)
+Theorem C14_spans_nested_and_ordered :
+  SpanParserSpec.stmt_spans_nested /\ SpanParserSpec.stmt_statement_spans_disjoint.
+Proof.
+  split; [exact SpanParserProofs.spans_nested_holds | exact SpanParserProofs.statement_spans_disjoint_holds].
+Qed.
+Print Assumptions C14_spans_nested_and_ordered.
+(* the span of an expression node is exactly the extent of that expression: the text between its
+   ends, alone, lexes without blanks at its edges and parses to that very expression *)
+Theorem C14_span_is_the_extent_of_the_construct :
+  SpanParserSpec.stmt_span_is_extent_tokens /\ SpanParserSpec.stmt_span_is_extent.
+Proof.
+  split; [exact SpanParserProofs.span_is_extent_tokens_holds | exact SpanParserProofs.span_is_extent_holds].
+Qed.
+Print Assumptions C14_span_is_the_extent_of_the_construct.
+(* "never attributed to the built-in preamble": every span of a statement of the user's file lies
+   in the user's text, and a diagnostic underlining it names the user's file, the line counted in
+   the user's text, and - on one line - echoes that line with carets under exactly the span *)
+Theorem C14_user_spans_rendered_in_the_user_file :
+  SpanParserSpec.stmt_user_spans_after_preamble /\ SpanParserSpec.stmt_preamble_statements_unchanged /\
+  SpanParserSpec.stmt_user_span_rendered_in_user_file /\ SpanParserSpec.stmt_user_span_rendered_in_user_file_gen.
+Proof.
+  split; [exact SpanParserProofs.user_spans_after_preamble_holds |].
+  split; [exact SpanParserProofs.preamble_statements_unchanged_holds |].
+  split; [exact SpanParserProofs.user_span_rendered_in_user_file_holds |].
+  exact SpanParserProofs.user_span_rendered_in_user_file_gen_holds.
+Qed.
+Print Assumptions C14_user_spans_rendered_in_the_user_file.
